@@ -22,6 +22,7 @@ type BashCase struct {
 	AppHook     func(stages [][]string, fs map[string][]byte) (string, int)
 	Tools       map[string]string // extra executables to install in the sandbox (name -> absolute source path)
 	PathSandbox bool              // put the sandbox directory first in PATH
+	MayReject   bool              // the form is not known to be part of the accepted language: a rejection discards the case
 }
 
 type caseOutcome int
@@ -93,6 +94,11 @@ func judgeBash(c *Check, bc BashCase) caseOutcome {
 		files["panic.txt"] = tr.Panic
 		c.Violation(bc.Key, "Transpile panicked on a well-typed program: "+firstLine(tr.Panic), files)
 		return outcomeViolated
+	}
+	if tr.Err != nil && bc.MayReject {
+		c.Count("may_reject_cases_rejected", 1)
+		c.Discard()
+		return outcomeDiscarded
 	}
 	if tr.Err != nil {
 		c.Violation(bc.Key, "well-typed program rejected: "+stripDir(tr.Err.Error(), dir), files)
